@@ -3,10 +3,10 @@
 // C13: the client never exceeds the server's MAX_CONCURRENT_STREAMS.
 //verif:pkg internal/transport
 //verif:bound loop=64 steps=8000000 preempt=1 paths=1500000
-//verif:thorough preempt=2 paths=6000000
+//verif:entry verifH_C13_quota2 thorough preempt=2 paths=6000000
 //verif:stub (*google.golang.org/grpc/internal/transport.http2Client).createHeaderFields => verifStubHeaderFields
 //verif:noreplay stubbed (header construction) and schedule-dependent: witnesses are re-executed deterministically in the engine from the recorded decision prefix
-//verif:outside more than 3 RPCs, 2 SETTINGS frames and limits above 3; header construction (stubbed) and the loopy writer (the order of HEADERS, stream clean-ups and SETTINGS acks is read from the control buffer, which is the order loopy writes them); stream-id exhaustion; preemption bound 1 (quick) / 2 (thorough)
+//verif:outside more than 3 RPCs, 2 SETTINGS frames and limits above 3; header construction (stubbed) and the loopy writer (the order of HEADERS, stream clean-ups and SETTINGS acks is read from the control buffer, which is the order loopy writes them); stream-id exhaustion; preemption bound 1 with 3 RPCs (both tiers), bound 2 with 2 RPCs (thorough)
 package transport
 
 import (
@@ -27,13 +27,23 @@ func verifSettingsFrame(maxStreams uint32) *http2.SettingsFrame {
 	return f
 }
 
+var verifC13RPCs = 3
+
+// thorough only: two RPCs under preemption bound 2 (three RPCs at bound 2 exceed the path budget)
+//
+//verif:thoroughonly verifH_C13_quota2
+func verifH_C13_quota2() {
+	verifC13RPCs = 2
+	verifH_C13_quota()
+}
+
 func verifH_C13_quota() {
 	done := make(chan struct{})
 	tctx, tcancel := context.WithCancel(context.Background())
 	m0 := uint32(1 + verifChoice("initial-limit", 2))
 	t := &http2Client{ctx: tctx, cancel: tcancel, controlBuf: newControlBuffer(done), goAway: make(chan struct{}), activeStreams: map[uint32]*ClientStream{},
 		nextID: 1, maxConcurrentStreams: m0, streamQuota: int64(m0), streamsQuotaAvailable: make(chan struct{}, 1), initialWindowSize: 65535}
-	nrpc := 3
+	nrpc := verifC13RPCs
 	cctx, ccancel := context.WithCancel(context.Background())
 	admitted, failed, closedByApp := 0, 0, 0
 	for i := 0; i < nrpc; i++ {
